@@ -591,6 +591,9 @@ theorem step_inv_loop (s0 : St) (e : Cont) (hs0 : inLoop s0 = false) (hc : Consi
   | raise c =>
     simp only [step, hin, if_true, raise]
     exact raise_inv_of s0 e hs0 hc st _ h hY c _ rfl rfl rfl rfl
+  | opSetupFail n =>
+    simp only [step, hin, if_true, raise]
+    exact raise_inv_of s0 e hs0 hc st _ h hY true _ rfl rfl rfl rfl
   | nested args a => exact nested_inv s0 e hs0 hc st _ h hY args a
   | importBegin m =>
     by_cases hm : m ∈ st.vm.placeholders
@@ -702,6 +705,7 @@ theorem step_inv_native (s0 : St) (e : Cont) (hs0 : inLoop s0 = false) (hc : Con
   | strEnd => exact ⟨_, by simpa [step, hin] using h⟩
   | exportVal k => exact ⟨_, by simpa [step, hin] using h⟩
   | raise c => exact ⟨_, by simpa [step, hin] using h⟩
+  | opSetupFail n => exact ⟨_, by simpa [step, hin] using h⟩
   | nested a b => exact nested_inv s0 e hs0 hc st _ h hY a b
   | importBegin m => exact ⟨_, by simpa [step, hin] using h⟩
   | importEnd ok => exact ⟨_, by simpa [step, hin, hconts] using h⟩
@@ -759,6 +763,7 @@ theorem step_inv_importing (s0 : St) (e : Cont) (hs0 : inLoop s0 = false) (hc : 
   | strEnd => exact ⟨_, by simpa [step, hin] using h⟩
   | exportVal k => exact ⟨_, by simpa [step, hin] using h⟩
   | raise c => exact ⟨_, by simpa [step, hin] using h⟩
+  | opSetupFail n => exact ⟨_, by simpa [step, hin] using h⟩
   | nested a b => exact nested_inv s0 e hs0 hc st _ h hY a b
   | importBegin m => exact ⟨_, by simpa [step, hin] using h⟩
   | nativeRet ok => exact ⟨_, by simpa [step, hin, hconts] using h⟩
